@@ -638,6 +638,10 @@ class HeaderPacketReceiver(Elaboratable):
                 #  headers whose LGOOD we still owed when the link went down.
                 next_header_to_ack    .eq(expected_sequence_number - 1),
 
+                # -Not counting a header that arrives in this very cycle; it is dropped with the others
+                #  and will be sent again, as it has not been acknowledged.
+                expected_sequence_number  .eq(expected_sequence_number),
+
                 # - Clearing all of our buffers.
                 read_pointer          .eq(0),
                 write_pointer         .eq(0),
